@@ -32,6 +32,7 @@ FIXES = [
  ('C02','keeps the commit line also with --commit-style omit','commit_meta.rs: --color-only --commit-style omit dropped the commit line (13 input lines -> 12 output lines)'),
  ('C02','color-only from gitconfig disables the side-by-side feature','options/set.rs: `color-only = true` in gitconfig plus side-by-side left the side-by-side feature enabled, adding a line-number gutter to every hunk line'),
  ('C04','not emptied when the maximum line length is 0','delta.rs: with max-line-length 0 (also set by side-by-side + --wrap-max-lines=unlimited) a line containing invalid UTF-8 was replaced by an empty line'),
+ ('C07','truncate_str stops taking text once the width is used up','ansi/mod.rs: a side-by-side row cut in front of a double-width character inside a styled line was one column too wide, showed non-prefix text, and shifted the right panel by one column'),
 ]
 out = []
 for prop, pat, what in FIXES:
